@@ -30,6 +30,8 @@ AUDITED_UNSAFE = {
     ('<alloc::boxed::Box<T> as WrapperTypeDecode>::decode_wrapped', 'alloc'): 'layout has non-zero size on this branch',
     ('<alloc::boxed::Box<T> as WrapperTypeDecode>::decode_wrapped', 'from_raw'): 'memory from the global allocator with the same layout / dangling for ZST; second use after successful decode_into',
     ('helper:slice_no_len', 'transmute'): 'T is the primitive named by TYPE_INFO (C01 R01.3)',
+    ('helper:slice_no_len', 'from_raw_parts'): 'byte view of the whole slice: len * size_of of the primitive named by TYPE_INFO — the length and the '
+                                               'element type are decided by C01 R01.3, taken as a premise below',
     ('<[T; N] as Decode>::decode', 'assume_init'): 'decode_into succeeded',
     ('<[T; N] as Decode>::decode_into', 'write_bytes'): 'pointer to bytesize bytes of the destination',
     ('<[T; N] as Decode>::decode_into', 'from_raw_parts_mut'): 'zero-initialised just before',
@@ -430,4 +432,4 @@ def run(cx, out):
     from . import shared
     out.rule('R10.5', 'derived decode_into: no exit after a successful in-place field decode without dropping it (derive corpus of C05)')
     out.rule('R05.5', 'derived decode_into exists only for attribute-free repr(transparent) structs and decodes the fields in order')
-    shared.premises(cx, out, {'c05': {'R10.5', 'R05.5'}, 'c02': {'R02.5'}})
+    shared.premises(cx, out, {'c05': {'R10.5', 'R05.5'}, 'c02': {'R02.5'}, 'c01': {'R01.3'}})
